@@ -13,15 +13,17 @@ import (
 )
 
 type Opts struct {
-	DefaultUnroll int            // bound for loops not listed
-	Unroll        map[string]int // "funcRelString" or "funcRelString#hdrIndex" -> bound
-	MaxDepth      int
-	MaxCandidates int
-	MaxMake       int               // upper bound assumed for symbolic make/append lengths (bytes)
-	PruneTimeout  int               // ms for feasibility calls (0 = no pruning)
-	Stubs         map[string]string // callee full name -> harness function name
-	Ignore        map[string]bool   // callees with empty bodies
-	Trace         bool
+	DefaultUnroll     int            // bound for loops not listed
+	Unroll            map[string]int // "funcRelString" or "funcRelString#hdrIndex" -> bound
+	MaxDepth          int
+	MaxCandidates     int
+	AssumeAfterAssert bool
+	MaxNodes          int
+	MaxMake           int               // upper bound assumed for symbolic make/append lengths (bytes)
+	PruneTimeout      int               // ms for feasibility calls (0 = no pruning)
+	Stubs             map[string]string // callee full name -> harness function name
+	Ignore            map[string]bool   // callees with empty bodies
+	Trace             bool
 }
 
 type Obligation struct {
@@ -59,6 +61,9 @@ type Input struct {
 type Unsupported struct{ Msg string }
 
 func (u *Unsupported) Error() string { return "unsupported: " + u.Msg }
+
+// PruneCase: the harness declared this shape assignment infeasible (not part of the space).
+type PruneCase struct{}
 
 type ShapeRequest struct {
 	Name   string
@@ -129,10 +134,13 @@ func NewEngine(prog *ssa.Program, pkg *ssa.Package, opts Opts) *Engine {
 		Encoded: map[*ssa.Function]int{}, StubsUsed: map[string]int{}, AlignHint: map[*Obj]int{},
 		Shape: map[string]int{}, Ghost: map[string]*Obj{}, curThread: -1, shapeSeq: map[string]int{}, globalVals: map[*Obj]interface{}{}}
 	if e.Opts.DefaultUnroll == 0 {
-		e.Opts.DefaultUnroll = 300
+		e.Opts.DefaultUnroll = 64
 	}
 	if e.Opts.MaxDepth == 0 {
 		e.Opts.MaxDepth = 60
+	}
+	if e.Opts.MaxNodes == 0 {
+		e.Opts.MaxNodes = 4000000
 	}
 	if e.Opts.MaxCandidates == 0 {
 		e.Opts.MaxCandidates = 4200
@@ -177,7 +185,12 @@ func (e *Engine) fail(st *State, bad smt.Term, id, where string) {
 	}
 	th, ev := e.evIdx(st)
 	e.Obls = append(e.Obls, &Obligation{ID: id, Where: where, Cond: cond, Thread: th, EvIdx: ev, Seq: len(e.Obls)})
-	st.G = c.And(st.G, c.Not(bad))
+	// The path guard is NOT strengthened with ¬bad (assumptions are not retroactive and checks are
+	// not assumptions): obligations are discharged in program order and the first satisfiable one
+	// is the reported violation, so every earlier one is known to hold on all executions.
+	if e.Opts.AssumeAfterAssert {
+		st.G = c.And(st.G, c.Not(bad))
+	}
 }
 
 func (e *Engine) assume(st *State, cond smt.Term) {
